@@ -879,6 +879,41 @@ func gen(r *rand.Rand) input {
 	}
 }
 
+// authCatalogue: on every run, for each auth type one well-formed transaction whose auth field (the only part the
+// signature does not cover) is one byte short, one or several bytes long (zero, 0xff, a copy of itself), absent, of an
+// unknown type, of another type with the same length -- each kept inside correct canoto framing.
+func authCatalogue(w *emit.Writer, r *rand.Rand) {
+	for at := 0; at < 3; at++ {
+		p := txParts{ts: 1_700_000_060_000, chain: ids.ID{1, 2, 3}, fee: 1000, actions: [][]byte{transferBytes(r)}}
+		b, err := chain.SignRawActionBytesTx(chain.Base{Timestamp: p.ts, ChainID: p.chain, MaxFee: p.fee}, p.actions, factoryOf(at, 0))
+		if err != nil {
+			panic(err)
+		}
+		var st chain.SerializeTx
+		if err := st.UnmarshalCanoto(b); err != nil {
+			panic(err)
+		}
+		a := append([]byte{}, st.Auth...)
+		vars := []struct {
+			how string
+			v   []byte
+		}{
+			{"short", a[:len(a)-1]},
+			{"long-00", append(append([]byte{}, a...), 0)},
+			{"long-ff", append(append([]byte{}, a...), 0xff)},
+			{"long-32", append(append([]byte{}, a...), make([]byte, 32)...)},
+			{"doubled", append(append([]byte{}, a...), a...)},
+			{"unknown-type", append([]byte{9}, a[1:]...)},
+			{"other-type-same-len", append([]byte{byte((int(a[0]) + 1) % 3)}, a[1:]...)},
+		}
+		for _, v := range vars {
+			q := p
+			q.auth = v.v
+			_ = w.Put(run(input{Kind: 0, Bytes: txWire(q, defects{}), Gen: fmt.Sprintf("auth-catalogue/%d/%s", at, v.how)}))
+		}
+	}
+}
+
 func exhaustive(w *emit.Writer, r *rand.Rand) {
 	// every single-bit flip and every single-byte deletion of one valid transaction of each auth type
 	for at := 0; at < 3; at++ {
@@ -925,6 +960,7 @@ func TestDriver(t *testing.T) {
 		return
 	}
 	r := env.Rand()
+	authCatalogue(w, r)
 	if env.Tier == "thorough" {
 		exhaustive(w, r)
 	}
